@@ -65,25 +65,30 @@ PROPS = {
         "runner": "Run09",
         "theorems": ["C09_rule_repetition_bounded", "C09_rule_repetition_unbounded", "C09_rule_repetition_language",
                      "C09_rule_repetition_language_unbounded", "C09_nested_repetition", "C09_optional", "C09_star",
-                     "C09_plus", "C09_regex_repetition", "C09_count_set_decides"],
+                     "C09_plus", "C09_regex_repetition", "C09_count_set_decides",
+                     "C09_object_sizes_exact", "C09_object_sizes_rejected_iff_empty"],
         "rule": "exhaustive 0<=lo<=hi<=40 (thorough: 130 at rule level, a band elsewhere) plus {lo,} at six levels "
                 "(rule, grouped rule, terminal, regex, nested rule, rule in context), counts 0..hi+3, through the "
                 "single-byte Matcher; JSON minItems/maxItems, minLength/maxLength (ASCII, 2/3/4-byte characters, escapes), "
-                "min/maxProperties for 0<=lo<=hi<=14 (thorough 40). Model side: counts admitted by the model of "
+                "min/maxProperties for 0<=lo<=hi<=14 (thorough 40); size bounds next to 0-3 required and 0-3 optional declared "
+                "properties / prefixItems, open and closed additionalProperties. Model side: counts admitted by the model of "
                 "grammar_builder::repeat with K read from the source, and the regex Rep semantics. "
                 "distinct = distinct (lo,hi,bound,kind); every case is non-trivial",
         "trusted_base": ["modelled, not verified: parser/src/grammar_builder.rs select/join/optional/star/plus/at_most/"
                          "repeat_exact/at_least/repeat as expression trees (memo caches at_most_cache/repeat_exact_cache "
                          "not modelled: a wrong cache key shows up in the per-count comparison against the implementation)",
-                         "JSON size keywords (json/compiler.rs bounded_sequence etc.) are checked against the plain range "
-                         "specification only (implementation-only predicate), not modelled"],
+                         "modelled, not verified: the member-count arithmetic of schema.rs mk_object_schema and json/compiler.rs "
+                         "gen_json_object next to required declared members (coq/ObjCount.v); the other JSON size keywords are "
+                         "checked against the plain range specification (implementation-only predicate)"],
         "assumptions": ["the element literal is non-empty and unambiguous, so counting copies is well defined"],
         "level_text": "Theorems for every lo<=hi, every K>=2 and every element language: the factorised encodings of "
                       "x{lo,hi}, x{lo,}, x?, x*, x+ admit exactly the named counts, also nested; regex-level repetition via the "
                       "derivative matcher. K is re-read from grammar_builder.rs each run. The implementation is compared "
-                      "count by count with the model (exhaustive triangle).",
-        "level_note": "Model is hand-written from grammar_builder.rs; Rust not verified. JSON length/size keywords: exhaustive "
-                      "differential check only (no theorem).",
+                      "count by count with the model (exhaustive triangle). Objects with r required declared members: the counts the "
+                      "compiled sequence admits are exactly the sizes within min/maxProperties (exactly r when additionalProperties is "
+                      "closed), and the schema is rejected exactly when no size fits.",
+        "level_note": "Model is hand-written from grammar_builder.rs; Rust not verified. JSON length keywords and array sizes: exhaustive "
+                      "differential check only (no theorem); object sizes: theorem about the count arithmetic, tied by the comparison.",
     },
     "C04": {
         "runner": "Run04",
